@@ -499,11 +499,14 @@ func AnyStr(name string) string {
 	return strPool[sv.Choice(name+".str", n)]
 }
 
+// maxLen: list / map sizes are chosen in [0, maxLen).
+var MaxLenQuick = 3
+
 func maxLen() int {
 	if sv.Thorough() {
 		return 4
 	}
-	return 3
+	return MaxLenQuick
 }
 
 // AnyVal builds an arbitrary well-formed value whose type is exactly t.
